@@ -46,6 +46,7 @@ func runC15(c *Ctx) {
 	c02Cipher(c)
 	c12Cbuf(c)
 	writerGrowRules(c, "C15")
+	c11HeadEnd(c)
 	writerFlushFragmentRules(c, "C15")
 	// last: the bounds rule uses what every fold above established about the sites it executed
 	c15Bounds(c)
